@@ -391,6 +391,7 @@ class StringDataType(ElementaryDataType):
 
     len_type = None  #: data type of the string length
     encoding = "iso-8859-1"  #: encoding of string data
+    char_size = 1  #: size in bytes of each character
 
     @classmethod
     def _encode(cls, value: str, *args, **kwargs) -> bytes:
@@ -401,7 +402,7 @@ class StringDataType(ElementaryDataType):
         str_len = cls.len_type.decode(stream)
         if str_len == 0:
             return ""
-        str_data = cls._stream_read(stream, str_len)
+        str_data = cls._stream_read(stream, str_len * cls.char_size)
 
         return str_data.decode(cls.encoding)
 
@@ -524,6 +525,7 @@ class STRING2(StringDataType):
     code = 0xD5  #: 0xD5
     len_type = UINT
     encoding = "utf-16-le"
+    char_size = 2
 
 
 class FTIME(DINT):
